@@ -31,7 +31,7 @@ ConstExps == { Two, Three, Neg(One), Bin("div", One, Two), Bin("div", One, Three
 D1(L) == { Bin(op, x, y) : op \in BinOps, x \in L, y \in L } \cup { Bin("pow", x, c) : x \in L, c \in ConstExps }
          \cup { Neg(x) : x \in L }
 D1Small == { Bin(op, x, y) : op \in {"add", "mul", "div"}, x \in LeavesSmall, y \in LeavesSmall }
-           \cup { Bin("pow", x, c) : x \in {U("m"), U("s")}, c \in {Two, Bin("div", One, Two), Neg(One)} }
+           \cup { Bin("pow", x, c) : x \in {U("m"), U("s")}, c \in {Two, Bin("div", One, Two), Neg(One), Zero, Bin("sub", One, One)} }
 
 \* contexts for the second statement (za is the variable defined by the first)
 Za == V("v_a")
@@ -58,7 +58,7 @@ Completions(s) ==
     [] s.cls = "if" -> { [e1 |-> If(Bin("lt", s.l, y), z, w), e2 |-> NoExpr] : y \in LeavesSmall, z \in LeavesSmall, w \in Leaves }
                        \cup { [e1 |-> If(s.l, Two, Two), e2 |-> NoExpr] }
     [] s.cls = "two" -> { [e1 |-> d, e2 |-> c] : d \in { Bin(op, s.l, y) : op \in {"add", "mul", "div"}, y \in LeavesSmall }
-                                                    \cup { s.l, Bin("pow", s.l, Two), Bin("pow", s.l, Bin("div", One, Two)) },
+                                                    \cup { s.l, Bin("pow", s.l, Two), Bin("pow", s.l, Bin("div", One, Two)), Bin("pow", s.l, Zero) },
                                                c \in Ctx }
 
 Init == stage = 0 /\ seed = [cls |-> "", l |-> NoExpr] /\ cs = [e1 |-> NoExpr, e2 |-> NoExpr]
